@@ -99,6 +99,7 @@ where
         status_on_unsat: bool,
     ) -> (bool, Option<Vec<&Argument<T>>>) {
         let mut merged = Vec::new();
+        let mut found_accepted = false;
         for cc_af in ConnectedComponentsComputer::iter_connected_components(self.af) {
             let mut solver = (self.solver_factory)();
             self.constraints_encoder
@@ -114,6 +115,7 @@ where
                     let clause = args_in_cc
                         .iter()
                         .map(|a| self.constraints_encoder.arg_to_lit(a))
+                        .chain(std::iter::once(selector.negate()))
                         .collect::<Vec<Literal>>();
                     opt_selector = Some(selector);
                     solver.add_clause(clause);
@@ -124,11 +126,18 @@ where
                         .map(|a| self.constraints_encoder.arg_to_lit(a).negate())
                         .collect::<Vec<Literal>>()
                 };
-                let result = solver
+                let mut result = solver
                     .solve_under_assumptions(&assumption_lits)
                     .unwrap_model();
                 if assumption_polarity {
                     solver.add_clause(vec![opt_selector.unwrap().negate()]);
+                    if result.is_some() {
+                        found_accepted = true;
+                    } else {
+                        // one accepted argument is enough for the whole query:
+                        // this component only needs to have a stable extension
+                        result = solver.solve().unwrap_model();
+                    }
                 }
                 match result {
                     Some(assignment) => {
@@ -164,6 +173,9 @@ where
                     None => return (status_on_unsat, None),
                 }
             }
+        }
+        if assumption_polarity && !found_accepted {
+            return (status_on_unsat, None);
         }
         (!status_on_unsat, Some(merged))
     }
